@@ -27,6 +27,10 @@ pub trait TreeView {
     fn kind(&self, h: &Self::H) -> CKind;
     fn children(&self, h: &Self::H) -> Vec<Self::H>;
     fn template_contents(&self, h: &Self::H) -> Option<Self::H>;
+    /// shadow roots attached to `h` by declarative shadow root templates, in attachment order
+    fn shadow_roots(&self, _h: &Self::H) -> Vec<Self::H> {
+        vec![]
+    }
 }
 
 pub fn ns_short(ns: &str) -> &str {
@@ -62,9 +66,10 @@ impl Default for CanonOpts {
 
 pub fn canon<T: TreeView>(t: &T, root: &T::H, o: CanonOpts) -> String {
     let mut out = String::new();
-    // stack of (node, depth, is_template_contents)
-    let mut stack: Vec<(T::H, usize, bool)> = vec![(root.clone(), 0, false)];
-    while let Some((h, d, is_tc)) = stack.pop() {
+    // stack of (node, depth, 0 = node / 1 = template contents / 2 = shadow root)
+    let mut stack: Vec<(T::H, usize, u8)> = vec![(root.clone(), 0, 0)];
+    while let Some((h, d, role)) = stack.pop() {
+        let is_tc = role != 0;
         if out.len() > (64 << 20) {
             // a finite tree this large does not occur in generated cases: cycle
             out.push_str("TRUNCATED: dump exceeds 64 MiB (cycle in the tree?)\n");
@@ -72,7 +77,9 @@ pub fn canon<T: TreeView>(t: &T, root: &T::H, o: CanonOpts) -> String {
         }
         let kind = t.kind(&h);
         use std::fmt::Write;
-        if is_tc {
+        if role == 2 {
+            let _ = writeln!(out, "{d}|#shadow-root");
+        } else if is_tc {
             let _ = writeln!(out, "{d}|content");
         } else {
             match &kind {
@@ -129,11 +136,14 @@ pub fn canon<T: TreeView>(t: &T, root: &T::H, o: CanonOpts) -> String {
         let kids = t.children(&h);
         // push in reverse so that they pop in order; template contents first
         for k in kids.into_iter().rev() {
-            stack.push((k, d + 1, false));
+            stack.push((k, d + 1, 0));
         }
         if !is_tc {
             if let Some(tc) = t.template_contents(&h) {
-                stack.push((tc, d + 1, true));
+                stack.push((tc, d + 1, 1));
+            }
+            for sr in t.shadow_roots(&h).into_iter().rev() {
+                stack.push((sr, d + 1, 2));
             }
         }
     }
